@@ -74,14 +74,15 @@ def battery(rng, cls: str, n: int) -> list[list]:
 
 
 def operable(out: Outcome, rng, cls: str, params: dict, thorough: bool) -> None:
-    for xs in battery(rng, cls, 120 if thorough else 60):
+    for bi, xs in enumerate(battery(rng, cls, 120 if thorough else 60)):
         det, err = construct(cls, params)
         if det is None:
             return
         np.random.seed(1)
+        cast = {2: "int64", 4: "float64"}.get(bi)      # in-domain values arrive as NumPy scalars too (elements of an int / float64 array)
         for t, x in enumerate(xs, 1):
             try:
-                det.update(value=x)
+                det.update(value=dets.typed(x, cast))
             except Exception as e:  # noqa: BLE001
                 rep = {"class": cls, "params": params, "stream": xs[:t]}
                 if cls == "ADWIN" and isinstance(e, ValueError) and "total" in str(e) and "KF-C19-1" in out.findings:
